@@ -127,13 +127,22 @@ def addToTop (sc : Scopes) (x : String) : Scopes :=
   | s :: r => assocSet s x true :: r
 
 mutual
-/-- `predefine(env, body)`: announce the names of the straight-line defines (also inside `do`) -/
+/-- `predefine(env, body)`: announce the names of every define that is evaluated in the frame of this body — the
+    statements themselves, what is nested in `do` blocks, and the operands of every other form; `fn`, `let`, quoted data
+    and `defmacro` are skipped (own frame, or not evaluated) -/
 def predefine (s : Scope) : List Sx → Scope
   | [] => s
   | e :: r => predefine (predefine1 s e) r
 def predefine1 (s : Scope) : Sx → Scope
-  | .list true (.op .DEFINE :: .sym n _ :: _) => setDefault s n
-  | .list true (.op .DO :: x :: body) => predefine s (x :: body)
+  | .list true (h :: x :: rest) =>
+    match h with
+    | .op .DEFINE =>
+      (match x with
+        | .sym n _ => predefine (setDefault s n) rest
+        | _ => predefine s (x :: rest))      -- not a symbol: an ordinary operator form
+    | .op .FN | .op .LET | .op .QUOTE | .op .QUASIQUOTE | .op .DEFMACRO => s
+    | .op _ => predefine s (x :: rest)
+    | _ => predefine s (h :: x :: rest)
   | _ => s
 end
 
